@@ -661,8 +661,13 @@ def run(prog, rep):
                       'Tags.from_json no longer builds the value through the checking constructor')
     rep.instance('R3', 'Tags.from_json -> cls(d)')
     chk = tags.methods.get('_check')
-    ctxt = ast.unparse(inline(prog, tags, chk))
-    if 'isinstance(tag, str)' not in ctxt or not any(isinstance(n, ast.Raise) for n in ast.walk(chk)):
+    chki = inline(prog, tags, chk)
+    cparams = [p_ for p_ in func_params(chk) if p_ not in ('self', 'cls')]
+    # isinstance(<the parameter>, str) - whatever the parameter is called - somewhere in the body with helpers inlined
+    type_test = any(isinstance(n, ast.Call) and isinstance(n.func, ast.Name) and n.func.id == 'isinstance' and len(n.args) == 2 and
+                    isinstance(n.args[0], ast.Name) and cparams and n.args[0].id == cparams[0] and
+                    any(isinstance(x, ast.Name) and x.id == 'str' for x in ast.walk(n.args[1])) for n in ast.walk(chki))
+    if not type_test or not any(isinstance(n, ast.Raise) for n in ast.walk(chk)):
         rep.violation('R3', loc(tags.module, chk), 'Tags._check', 'type/raise missing', 'Tags._check no longer rejects')
 
     # set_name: check before store; set_property/set_properties dispatch through the setters
